@@ -46,6 +46,10 @@ CASES = [
  ("C11", "random.py", "        if query is None or query.user_id is None:", "        if not query or not query.user_id:", "break"),
  ("C18", "pipeline/_impl.py", "        elif options.rng is None or isinstance(options.rng, (Generator, BitGenerator)):", "        elif not options.rng or isinstance(options.rng, (Generator, BitGenerator)):", "break"),
  ("C18", "pipeline/_impl.py", "c_opts = options if seed is None else replace(options, rng=seed.spawn(1)[0])", "c_opts = options if not seed else replace(options, rng=seed.spawn(1)[0])", "break"),
+ ("C13", "pipeline/builder.py", "                    if iname not in c_ins and iname in self._default_connections:", "                    if iname in self._default_connections:", "break"),
+ ("C13", "pipeline/builder.py", "                    if iname not in c_ins and iname in self._default_connections:", "                    if iname in self._default_connections and iname not in c_ins:", "keep"),
+ ("C13", "pipeline/builder.py", "            if h2 != cfg.meta.hash:\n                _log.warning", "            if h2 == cfg.meta.hash:\n                _log.warning", "break"),
+ ("C13", "pipeline/builder.py", "        if cfg.meta.hash is not None:\n            h2 = builder.config_hash()", "        if cfg.meta.hash:\n            h2 = builder.config_hash()", "outside"),
  ("C13", "pipeline/config.py", "        return None if types is None else sorted(types)", "        return None if types is None else list(types)", "break"),
  ("C13", "pipeline/builder.py", "                    c_cfg.inputs = dict(sorted(edges.get(name, {}).items(), key=lambda kv: kv[0]))", "                    c_cfg.inputs = edges.get(name, {})", "break"),
  ("C13", "pipeline/builder.py", "        cfg.aliases = {a: t.name for (a, t) in sorted(self._aliases.items(), key=lambda kv: kv[0])}", "        cfg.aliases = {a: t.name for (a, t) in self._aliases.items()}", "break"),
